@@ -609,6 +609,14 @@ func runWorldModeX(cfg *runCfg, name string, kf1 bool, live bool) error {
 			w = directedWorld(r, rep, cfg.seed*100000+10, 3)
 			w.twoProofsScript()
 			rep.count("world:directed-two-proofs-script")
+		} else if !kf1 && i == 11 {
+			w = directedWorld(r, rep, cfg.seed*100000+11, 1)
+			w.leaderPrepareAheadScript()
+			rep.count("world:directed-leader-prepare-ahead-script")
+		} else if !kf1 && i == 12 {
+			w = directedWorld(r, rep, cfg.seed*100000+12, 3)
+			w.liftedProofScript()
+			rep.count("world:directed-lifted-proof-script")
 		} else {
 			w.run()
 		}
